@@ -106,6 +106,10 @@ def st_case(draw):
     for _ in range(nf):
         filters.append(draw(E.weighted((6, st_hostile_filter(store)), (2, qgen.st_filter(store)),
                                        (1, st.sampled_from(["x", None, 5, [], [1], {}])))))
+    if draw(st.integers(0, 3)) == 0:
+        # aim at one stored event that must NOT come back
+        decoys = draw(qgen.st_decoy_filters(store))
+        filters = (decoys + filters)[: max(len(decoys), draw(st.integers(1, 4)))]
     path = draw(st.sampled_from(["req", "single", "ws"]))
     return {"backend": backend, "store": store, "filters": filters, "path": path}
 
